@@ -3,6 +3,7 @@ import Pun.Props.C01
 import Mathlib.Algebra.Order.Ring.Abs
 import Mathlib.Algebra.Order.Monoid.Unbundled.Pow
 import Mathlib.Tactic.Ring
+import Mathlib.Data.List.Range
 /-!
 # C13 — interval propagation strategies nest around the true range
 
@@ -989,9 +990,9 @@ theorem unVal_kind (φ : UFun → Rat → Rat) (f : UFun) (v V : Val) (h : unVal
     · exact mk_kind h
     · cases h
 
-/-- ★ inclusion isotonicity of direct evaluation (proved for the case that both evaluations return a value):
-a sub-box gives a contained result.  Any dimension, any depth, repeated variables. -/
-theorem direct_isotone_partial (φ : UFun → Rat → Rat) (hφ : Mono φ) (e : Expr) (t box : Box) (hs : SubBox t box)
+/-- inclusion when both evaluations return a value (lemma for `direct_isotone`, which also proves that the
+sub-box evaluation does return a value) -/
+theorem direct_incl_of_ok (φ : UFun → Rat → Rat) (hφ : Mono φ) (e : Expr) (t box : Box) (hs : SubBox t box)
     (V V' : Val) (h : evalIvl φ t e = .ok V) (h' : evalIvl φ box e = .ok V') :
     Incl V V' ∧ Valid V ∧ V.isNum = V'.isNum := by
   induction e generalizing V V' with
@@ -1048,7 +1049,7 @@ theorem direct_isotone_partial (φ : UFun → Rat → Rat) (hφ : Mono φ) (e : 
         obtain ⟨r1, r2⟩ := unVal_incl φ hφ f u u' V V' v1 i1 k1 h h'
         exact ⟨r1, r2, by rw [unVal_kind _ _ _ _ h, unVal_kind _ _ _ _ h', k1]⟩
 
-/-- the full isotonicity statement also asserts that evaluation over the sub-box succeeds -/
+/-- the full isotonicity statement (proved below: `direct_isotone_statement`) -/
 def DirectIsotoneStatement : Prop :=
   ∀ (φ : UFun → Rat → Rat), Mono φ → ∀ (e : Expr) (t box : Box), SubBox t box → ∀ V', evalIvl φ box e = .ok V' →
     ∃ V, evalIvl φ t e = .ok V ∧ Incl V V'
@@ -1065,8 +1066,8 @@ theorem subdirect_within_direct (φ : UFun → Rat → Rat) (hφ : Mono φ) (e :
     obtain ⟨_, ⟨r1, hr1, e1⟩, ⟨r2, hr2, e2⟩⟩ := reconstitute_spec h
     obtain ⟨t1, ht1, het1⟩ := forall₂_right hall r1 hr1
     obtain ⟨t2, ht2, het2⟩ := forall₂_right hall r2 hr2
-    obtain ⟨i1, _, _⟩ := direct_isotone_partial φ hφ e t1 box (tiles_within box n hv t1 ht1) r1 D het1 hD
-    obtain ⟨i2, _, _⟩ := direct_isotone_partial φ hφ e t2 box (tiles_within box n hv t2 ht2) r2 D het2 hD
+    obtain ⟨i1, _, _⟩ := direct_incl_of_ok φ hφ e t1 box (tiles_within box n hv t1 ht1) r1 D het1 hD
+    obtain ⟨i2, _, _⟩ := direct_incl_of_ok φ hφ e t2 box (tiles_within box n hv t2 ht2) r2 D het2 hD
     exact ⟨by rw [← e1]; exact i1.1, by rw [← e2]; exact i2.2⟩
 
 example : subinterval (fun _ x => x) (.sub (.mul (.var 0) (.var 1)) (.var 0)) [(-1, 2), (3, 5)] (some .direct) (some 2)
@@ -1074,9 +1075,9 @@ example : subinterval (fun _ x => x) (.sub (.mul (.var 0) (.var 1)) (.var 0)) [(
 
 /-! ## tiles do not overlap -/
 
-/-- ★ (one side, proved) along one side the tiles are ordered and meet only at knots: tile `i` ends
-no later than tile `j` starts, for `i < j` -/
-theorem tiles1_disjoint_partial (p : Rat × Rat) (n : Nat) (hp : p.1 ≤ p.2) (i j : Nat) (hij : i < j) (hj : j < n) :
+/-- along one side the tiles are ordered and meet only at knots: tile `i` ends no later than tile `j` starts,
+for `i < j` (index form; `tiles1_pairwise` is the list form used for the d-dimensional theorem) -/
+theorem tiles1_ordered (p : Rat × Rat) (n : Nat) (hp : p.1 ≤ p.2) (i j : Nat) (hij : i < j) (hj : j < n) :
     ∃ s t, (tiles1 p n)[i]? = some s ∧ (tiles1 p n)[j]? = some t ∧ s.2 ≤ t.1 := by
   have hn : ¬ n ≤ 1 := by omega
   refine ⟨(knot p.1 p.2 n i, knot p.1 p.2 n (i + 1)), (knot p.1 p.2 n j, knot p.1 p.2 n (j + 1)), ?_, ?_, ?_⟩
@@ -1084,15 +1085,502 @@ theorem tiles1_disjoint_partial (p : Rat × Rat) (n : Nat) (hp : p.1 ≤ p.2) (i
   · simp [tiles1, hn, List.getElem?_map, List.getElem?_range hj]
   · exact knot_mono _ _ _ hp _ _ (by omega)
 
-/-- the full non-overlap statement in dimension `d`: two tiles at different positions of the tiling are
-separated along some coordinate (their interiors are disjoint).  Proved above for one side; the
-`d`-dimensional step (two distinct index tuples differ in a coordinate) is checked by the harness on the
-tiles captured from the real code, not proved. -/
+/-- the non-overlap statement in dimension `d` (proved below: `tiles_interior_disjoint`): two tiles at different
+positions of the tiling are separated along some coordinate -/
 def TilesInteriorDisjointStatement : Prop :=
   ∀ (box : Box) (n : Nat), ValidBox box → ∀ (i j : Nat), i < j → ∀ (s t : Box), (tiles box n)[i]? = some s → (tiles box n)[j]? = some t →
     ∃ (k : Nat) (q q' : Rat × Rat), s[k]? = some q ∧ t[k]? = some q' ∧ (q.2 ≤ q'.1 ∨ q'.2 ≤ q.1)
 
 example : ∃ s t, (tiles1 (0, 3) 3)[0]? = some s ∧ (tiles1 (0, 3) 3)[2]? = some t ∧ s.2 ≤ t.1 :=
-  tiles1_disjoint_partial (0, 3) 3 (by norm_num) 0 2 (by omega) (by omega)
+  tiles1_ordered (0, 3) 3 (by norm_num) 0 2 (by omega) (by omega)
+
+/-! ## when interval evaluation raises, and unconditional inclusion isotonicity -/
+
+/-- the only arithmetic reason for `binVal` to raise: a divisor that contains zero -/
+def BinDefined (op : BinOp) (r : Val) : Prop := op = .div → ¬ (r.lo ≤ 0 ∧ 0 ≤ r.hi)
+
+theorem mk_of_le {l h : Rat} (hh : l ≤ h) : mk l h = .ok (.ivl l h) := by simp [mk, hh]
+
+/-- an operator application that returned a value did not divide by something containing zero -/
+theorem binVal_defined_of_ok (op : BinOp) (l r V : Val) (h : binVal op l r = .ok V) : BinDefined op r := by
+  intro hop; subst hop
+  cases l with
+  | num p =>
+    cases r with
+    | num s =>
+      simp only [binVal, binPt] at h
+      rintro ⟨h1, h2⟩
+      have : s = 0 := le_antisymm h1 h2
+      rw [if_pos this] at h; cases h
+    | ivl c d =>
+      simp only [binVal] at h
+      split at h
+      · cases h
+      · rename_i hz; exact hz
+  | ivl a b =>
+    cases r with
+    | num s =>
+      simp only [binVal] at h
+      rintro ⟨h1, h2⟩
+      have : s = 0 := le_antisymm h1 h2
+      rw [if_pos this] at h; cases h
+    | ivl c d =>
+      simp only [binVal] at h
+      rintro ⟨h1, h2⟩
+      rw [div_straddle_raises a b c d ⟨h1, h2⟩] at h
+      cases h
+
+theorem binDefined_of_incl {op : BinOp} {r r' : Val} (ir : Incl r r') (h : BinDefined op r') : BinDefined op r := by
+  intro hop ⟨h1, h2⟩
+  exact h hop ⟨le_trans ir.1 h1, le_trans h2 ir.2⟩
+
+/-- ★ totality: on valid operands an operator application raises ONLY for a divisor containing zero -/
+theorem binVal_total (op : BinOp) (l r : Val) (hl : Valid l) (hr : Valid r) (hd : BinDefined op r) :
+    ∃ V, binVal op l r = .ok V := by
+  cases l with
+  | num p =>
+    cases r with
+    | num s =>
+      cases op <;> simp only [binVal, binPt]
+      · exact ⟨_, rfl⟩
+      · exact ⟨_, rfl⟩
+      · exact ⟨_, rfl⟩
+      · have hs : s ≠ 0 := by
+          intro h0; subst h0; exact hd rfl ⟨le_refl _, le_refl _⟩
+        rw [if_neg hs]; exact ⟨_, rfl⟩
+    | ivl c d =>
+      have hcd : c ≤ d := hr
+      cases op <;> simp only [binVal]
+      · exact ⟨_, mk_of_le (by linarith)⟩
+      · exact ⟨_, mk_of_le (by linarith)⟩
+      · split
+        · exact ⟨_, mk_of_le (by nlinarith)⟩
+        · exact ⟨_, mk_of_le (by nlinarith)⟩
+      · have hns : ¬ (c ≤ 0 ∧ d ≥ 0) := hd rfl
+        rw [if_neg hns]
+        have h0 : 0 < c ∨ d < 0 := by
+          by_contra hc
+          rw [not_or, not_lt, not_lt] at hc
+          exact hns ⟨hc.1, hc.2⟩
+        split
+        · rename_i hp
+          rcases h0 with h0 | h0
+          · exact ⟨_, mk_of_le (by rw [div_le_div_iff₀ (lt_of_lt_of_le h0 hcd) h0]; nlinarith)⟩
+          · exact ⟨_, mk_of_le (by rw [div_le_div_iff_neg h0 (lt_of_le_of_lt hcd h0)]; nlinarith)⟩
+        · rename_i hp
+          have hp' : p < 0 := not_le.mp hp
+          rcases h0 with h0 | h0
+          · exact ⟨_, mk_of_le (by rw [div_le_div_iff₀ h0 (lt_of_lt_of_le h0 hcd)]; nlinarith)⟩
+          · exact ⟨_, mk_of_le (by rw [div_le_div_iff_neg (lt_of_le_of_lt hcd h0) h0]; nlinarith)⟩
+  | ivl a b =>
+    have hab : a ≤ b := hl
+    cases r with
+    | num s =>
+      cases op <;> simp only [binVal]
+      · exact ⟨_, mk_of_le (by linarith)⟩
+      · exact ⟨_, mk_of_le (by linarith)⟩
+      · split
+        · exact ⟨_, mk_of_le (by nlinarith)⟩
+        · exact ⟨_, mk_of_le (by nlinarith)⟩
+      · have hs : s ≠ 0 := by
+          intro h0; subst h0; exact hd rfl ⟨le_refl _, le_refl _⟩
+        rw [if_neg hs]
+        split
+        · rename_i hp
+          exact ⟨_, mk_of_le (by rw [div_le_div_iff₀ hp hp]; nlinarith)⟩
+        · rename_i hp
+          have hn : s < 0 := lt_of_le_of_ne (not_lt.mp hp) hs
+          exact ⟨_, mk_of_le (by rw [div_le_div_iff_neg hn hn]; nlinarith)⟩
+    | ivl c d =>
+      have hcd : c ≤ d := hr
+      cases op <;> simp only [binVal]
+      · exact ⟨_, mk_of_le (by linarith)⟩
+      · exact ⟨_, mk_of_le (by linarith)⟩
+      · rw [mulTable_exact a b c d hab hcd]
+        have := mul_hull a b c d a c (le_refl _) hab (le_refl _) hcd
+        exact ⟨_, mk_of_le (le_trans this.1 this.2)⟩
+      · have hns : ¬ (c ≤ 0 ∧ 0 ≤ d) := hd rfl
+        have h0 : 0 < c ∨ d < 0 := by
+          by_contra hc
+          rw [not_or, not_lt, not_lt] at hc
+          exact hns ⟨hc.1, hc.2⟩
+        obtain ⟨l, hh, ht, hs, _, _⟩ := divTable_sound a b c d hab hcd h0
+        rw [ht]
+        have := hs a c (le_refl _) hab (le_refl _) hcd
+        exact ⟨_, mk_of_le (le_trans this.1 this.2)⟩
+
+/-- `Interval.__pow__` with a natural exponent never raises on a valid operand -/
+theorem powVal_total (v : Val) (k : Nat) (hv : Valid v) : ∃ V, powVal v k = .ok V := by
+  cases v with
+  | num c => exact ⟨_, rfl⟩
+  | ivl a b =>
+    have hab : a ≤ b := hv
+    simp only [powVal]
+    split
+    · rename_i hk
+      have := even_pow_bounds a b a k hk (le_refl _) hab
+      exact ⟨_, mk_of_le (le_trans this.1 this.2)⟩
+    · exact ⟨_, mk_of_le (le_trans (min_le_left _ _) (le_max_left _ _))⟩
+
+theorem dom_mono (f : UFun) {x y : Rat} (hx : f.dom x) (hxy : x ≤ y) : f.dom y := by
+  cases f
+  · trivial
+  · exact le_trans hx hxy
+
+theorem unVal_dom_of_ok (φ : UFun → Rat → Rat) (f : UFun) (v V : Val) (h : unVal φ f v = .ok V) : f.dom v.lo := by
+  cases v with
+  | num c =>
+    simp only [unVal, unPt] at h
+    split at h
+    · assumption
+    · cases h
+  | ivl a b =>
+    simp only [unVal] at h
+    split at h
+    · rename_i hd; exact hd.1
+    · cases h
+
+/-- exp / sqrt of a valid operand raise only outside the domain -/
+theorem unVal_total (φ : UFun → Rat → Rat) (hφ : Mono φ) (f : UFun) (v : Val) (hv : Valid v) (hd : f.dom v.lo) :
+    ∃ V, unVal φ f v = .ok V := by
+  cases v with
+  | num c =>
+    have hd' : f.dom c := hd
+    simp only [unVal, unPt]; rw [if_pos hd']; exact ⟨_, rfl⟩
+  | ivl a b =>
+    have hab : a ≤ b := hv
+    have hd' : f.dom a := hd
+    simp only [unVal]
+    rw [if_pos ⟨hd', dom_mono f hd' hab⟩]
+    exact ⟨_, mk_of_le (hφ f a b hd hab)⟩
+
+theorem getElem_sub_exists {t box : Box} (hs : SubBox t box) (i : Nat) (p : Rat × Rat) (hp : box[i]? = some p) :
+    ∃ q, t[i]? = some q := by
+  induction hs generalizing i with
+  | nil => simp at hp
+  | cons hab _ ih =>
+    cases i with
+    | zero => exact ⟨_, rfl⟩
+    | succ j => simp only [List.getElem?_cons_succ] at hp ⊢; exact ih j hp
+
+theorem valid_of_incl {v v' : Val} (hv : Valid v) (i : Incl v v') : Valid v' :=
+  le_trans i.1 (le_trans hv i.2)
+
+theorem direct_isotone_bin (φ : UFun → Rat → Rat) (hφ : Mono φ) (op : BinOp) (t box : Box) (hs : SubBox t box)
+    (E a b : Expr)
+    (hE : ∀ bx, evalIvl φ bx E = (do let u ← evalIvl φ bx a; let v ← evalIvl φ bx b; binVal op u v))
+    (iha : ∀ V', evalIvl φ box a = .ok V' → ∃ V, evalIvl φ t a = .ok V ∧ Incl V V' ∧ Valid V ∧ V.isNum = V'.isNum)
+    (ihb : ∀ V', evalIvl φ box b = .ok V' → ∃ V, evalIvl φ t b = .ok V ∧ Incl V V' ∧ Valid V ∧ V.isNum = V'.isNum)
+    (V' : Val) (h' : evalIvl φ box E = .ok V') :
+    ∃ V, evalIvl φ t E = .ok V ∧ Incl V V' ∧ Valid V ∧ V.isNum = V'.isNum := by
+  have h0 := h'
+  rw [hE] at h'
+  simp only [bind, Except.bind] at h'
+  split at h'
+  · cases h'
+  · rename_i u' hu'
+    split at h'
+    · cases h'
+    · rename_i v' hv'
+      obtain ⟨u, hu, iu, vu, _⟩ := iha u' hu'
+      obtain ⟨v, hv, iv, vv, _⟩ := ihb v' hv'
+      have hdef := binDefined_of_incl iv (binVal_defined_of_ok _ u' v' V' h')
+      obtain ⟨V, hV⟩ := binVal_total _ u v vu vv hdef
+      have hEt : evalIvl φ t E = .ok V := by
+        rw [hE]; simp only [hu, hv, bind, Except.bind]; exact hV
+      exact ⟨V, hEt, direct_incl_of_ok φ hφ E t box hs V V' hEt h0⟩
+
+/-- ★ inclusion isotonicity of direct evaluation, unconditionally: whenever evaluation over a box returns
+a value, evaluation over every sub-box returns a value too, and it is contained in the former.
+Any dimension, any depth, repeated variables, `+ − × ÷`, natural powers, exp, sqrt. -/
+theorem direct_isotone (φ : UFun → Rat → Rat) (hφ : Mono φ) (e : Expr) (t box : Box) (hs : SubBox t box)
+    (V' : Val) (h' : evalIvl φ box e = .ok V') :
+    ∃ V, evalIvl φ t e = .ok V ∧ Incl V V' ∧ Valid V ∧ V.isNum = V'.isNum := by
+  induction e generalizing V' with
+  | var i =>
+    simp only [evalIvl] at h'
+    split at h'
+    · rename_i p hp
+      obtain ⟨q, hq⟩ := getElem_sub_exists hs i p hp
+      have hV : evalIvl φ t (.var i) = .ok (.ivl q.1 q.2) := by simp only [evalIvl, hq]
+      exact ⟨_, hV, direct_incl_of_ok φ hφ (.var i) t box hs _ V' hV (by simp only [evalIvl, hp]; exact h')⟩
+    · cases h'
+  | const c => exact ⟨.num c, rfl, direct_incl_of_ok φ hφ (.const c) t box hs _ V' rfl h'⟩
+  | add a b iha ihb => exact direct_isotone_bin φ hφ .add t box hs _ a b (fun bx => by simp only [evalIvl]) iha ihb V' h'
+  | sub a b iha ihb => exact direct_isotone_bin φ hφ .sub t box hs _ a b (fun bx => by simp only [evalIvl]) iha ihb V' h'
+  | mul a b iha ihb => exact direct_isotone_bin φ hφ .mul t box hs _ a b (fun bx => by simp only [evalIvl]) iha ihb V' h'
+  | div a b iha ihb => exact direct_isotone_bin φ hφ .div t box hs _ a b (fun bx => by simp only [evalIvl]) iha ihb V' h'
+  | pow a k iha =>
+    have h0 := h'
+    simp only [evalIvl, bind, Except.bind] at h'
+    split at h'
+    · cases h'
+    · rename_i u' hu'
+      obtain ⟨u, hu, iu, vu, _⟩ := iha u' hu'
+      obtain ⟨V, hV⟩ := powVal_total u k vu
+      have hE : evalIvl φ t (.pow a k) = .ok V := by simp only [evalIvl, hu, bind, Except.bind]; exact hV
+      exact ⟨V, hE, direct_incl_of_ok φ hφ _ t box hs V V' hE h0⟩
+  | un f a iha =>
+    have h0 := h'
+    simp only [evalIvl, bind, Except.bind] at h'
+    split at h'
+    · cases h'
+    · rename_i u' hu'
+      obtain ⟨u, hu, iu, vu, _⟩ := iha u' hu'
+      have hd := dom_mono f (unVal_dom_of_ok φ f u' V' h') iu.1
+      obtain ⟨V, hV⟩ := unVal_total φ hφ f u vu hd
+      have hE : evalIvl φ t (.un f a) = .ok V := by simp only [evalIvl, hu, bind, Except.bind]; exact hV
+      exact ⟨V, hE, direct_incl_of_ok φ hφ _ t box hs V V' hE h0⟩
+
+/-- the full statement of `DirectIsotoneStatement` holds -/
+theorem direct_isotone_statement : DirectIsotoneStatement := by
+  intro φ hφ e t box hs V' h'
+  obtain ⟨V, h, i, _⟩ := direct_isotone φ hφ e t box hs V' h'
+  exact ⟨V, h, i⟩
+
+/-- consequence: if direct evaluation over the box returns a value, subinterval reconstitution with direct
+evaluation returns a value for every subdivision count (no tile can raise) -/
+theorem subdirect_total (φ : UFun → Rat → Rat) (hφ : Mono φ) (e : Expr) (box : Box) (hv : ValidBox box) (n : Nat)
+    (D : Val) (hD : direct φ e box = .ok D) : ∃ V, subinterval φ e box (some .direct) (some n) = .ok V := by
+  have hall : ∀ ts : List Box, (∀ t ∈ ts, SubBox t box) →
+      ∃ rs, ts.mapM (fun t => direct φ e t) = .ok rs ∧ rs.length = ts.length ∧ ∀ r ∈ rs, Incl r D ∧ Valid r := by
+    intro ts
+    induction ts with
+    | nil => intro _; exact ⟨[], rfl, rfl, by simp⟩
+    | cons t ts ih =>
+      intro hsub
+      obtain ⟨rs, hrs, hlen, hincl⟩ := ih (fun t' ht' => hsub t' (by simp [ht']))
+      obtain ⟨r, hr, ir, vr, _⟩ := direct_isotone φ hφ e t box (hsub t (by simp)) D hD
+      refine ⟨r :: rs, ?_, by simp [hlen], ?_⟩
+      · simp only [List.mapM_cons, bind, Except.bind, direct] at hrs ⊢
+        rw [hr, hrs]; rfl
+      · intro r' hr'
+        simp only [List.mem_cons] at hr'
+        rcases hr' with rfl | hr'
+        · exact ⟨ir, vr⟩
+        · exact hincl r' hr'
+  obtain ⟨rs, hrs, hlen, hincl⟩ := hall (tiles box n) (fun t ht => tiles_within box n hv t ht)
+  obtain ⟨t0, ht0, _⟩ := (tiles_reach_ends box n).1
+  have hne : rs ≠ [] := by
+    intro h0; subst h0
+    simp at hlen
+    rw [List.eq_nil_of_length_eq_zero hlen.symm] at ht0; simp at ht0
+  simp only [subinterval, bind, Except.bind, hrs]
+  -- reconstitute of a non-empty list of valid pieces inside D succeeds
+  unfold reconstitute
+  cases hm : minL1 (rs.map Val.lo) with
+  | none => cases rs with
+    | nil => exact absurd rfl hne
+    | cons r rs' => simp [minL1] at hm
+  | some l =>
+    cases hM : maxL1 (rs.map Val.hi) with
+    | none => cases rs with
+      | nil => exact absurd rfl hne
+      | cons r rs' => simp [maxL1] at hM
+    | some h =>
+      obtain ⟨a1, a2⟩ := minL1_spec hm
+      obtain ⟨b1, b2⟩ := maxL1_spec hM
+      obtain ⟨r, hr, e1⟩ := List.mem_map.mp a2
+      have hle : l ≤ h := by
+        have := (hincl r hr).2
+        calc l = r.lo := e1.symm
+          _ ≤ r.hi := this
+          _ ≤ h := b1 _ (List.mem_map_of_mem hr)
+      exact ⟨_, mk_of_le hle⟩
+
+/-! ## tiles are pairwise interior-disjoint in every dimension -/
+
+/-- "separated along some coordinate": the first box ends, along coordinate `k`, no later than the second starts -/
+def SepAt (R : α → α → Prop) (s t : List α) : Prop := ∃ (k : Nat) (a b : α), s[k]? = some a ∧ t[k]? = some b ∧ R a b
+
+/-- in a product of lists that are each pairwise `R`-ordered, two tuples at positions `i < j` are
+`R`-separated along the first coordinate in which they differ -/
+theorem pairwise_prodL {α : Type} (R : α → α → Prop) (ls : List (List α)) (h : ∀ l ∈ ls, l.Pairwise R) :
+    (prodL ls).Pairwise (SepAt R) := by
+  induction ls with
+  | nil => simp [prodL]
+  | cons l ls ih =>
+    have hl : l.Pairwise R := h l (by simp)
+    have ht := ih (fun m hm => h m (by simp [hm]))
+    simp only [prodL]
+    rw [List.pairwise_flatMap]
+    refine ⟨fun a _ => ?_, ?_⟩
+    · rw [List.pairwise_map]
+      refine ht.imp ?_
+      rintro s t ⟨k, x, y, hx, hy, hr⟩
+      exact ⟨k + 1, x, y, by simpa using hx, by simpa using hy, hr⟩
+    · refine hl.imp ?_
+      intro a b hab s hs t ht'
+      obtain ⟨s', _, rfl⟩ := List.mem_map.mp hs
+      obtain ⟨t', _, rfl⟩ := List.mem_map.mp ht'
+      exact ⟨0, a, b, rfl, rfl, hab⟩
+
+/-- along one side the tiles are ordered: an earlier tile ends no later than a later one starts -/
+theorem tiles1_pairwise (p : Rat × Rat) (n : Nat) (hp : p.1 ≤ p.2) :
+    (tiles1 p n).Pairwise (fun q q' => q.2 ≤ q'.1) := by
+  unfold tiles1
+  split
+  · simp
+  · rw [List.pairwise_map]
+    refine (List.pairwise_lt_range (n := n)).imp ?_
+    intro i j hij
+    exact knot_mono _ _ _ hp _ _ (by omega)
+
+/-- ★ the tiles are pairwise interior-disjoint, for every dimension and every subdivision count: two tiles at
+different positions of the tiling are separated along some coordinate (one ends there no later than the other
+starts), so no point lies in the interior of both -/
+theorem tiles_interior_disjoint : TilesInteriorDisjointStatement := by
+  intro box n hv i j hij s t hs ht
+  have hpw : (tiles box n).Pairwise (SepAt (fun q q' : Rat × Rat => q.2 ≤ q'.1)) := by
+    apply pairwise_prodL
+    intro l hl
+    obtain ⟨p, hp, rfl⟩ := List.mem_map.mp hl
+    exact tiles1_pairwise p n (hv p hp)
+  have hi : i < (tiles box n).length := (List.getElem?_eq_some_iff.mp hs).1
+  have hj : j < (tiles box n).length := (List.getElem?_eq_some_iff.mp ht).1
+  have := List.pairwise_iff_getElem.mp hpw i j hi hj hij
+  rw [List.getElem?_eq_some_iff] at hs ht
+  obtain ⟨_, rfl⟩ := hs; obtain ⟨_, rfl⟩ := ht
+  obtain ⟨k, a, b, ha, hb, hab⟩ := this
+  exact ⟨k, a, b, ha, hb, Or.inl hab⟩
+
+theorem strict_getElem {x : List Rat} {u : Box} (hu : List.Forall₂ (fun xi (q : Rat × Rat) => q.1 < xi ∧ xi < q.2) x u)
+    (k : Nat) (q : Rat × Rat) (hq : u[k]? = some q) : ∃ xi, x[k]? = some xi ∧ q.1 < xi ∧ xi < q.2 := by
+  induction hu generalizing k with
+  | nil => simp at hq
+  | cons h1 _ ih =>
+    cases k with
+    | zero => simp at hq; subst hq; exact ⟨_, rfl, h1⟩
+    | succ m => simp only [List.getElem?_cons_succ] at hq ⊢; exact ih m hq
+
+/-- no point lies strictly inside two tiles at different positions -/
+theorem tiles_no_common_interior (box : Box) (n : Nat) (hv : ValidBox box) (i j : Nat) (hij : i < j) (s t : Box)
+    (hs : (tiles box n)[i]? = some s) (ht : (tiles box n)[j]? = some t) (x : List Rat)
+    (hxs : List.Forall₂ (fun xi q => q.1 < xi ∧ xi < q.2) x s) (hxt : List.Forall₂ (fun xi q => q.1 < xi ∧ xi < q.2) x t) :
+    False := by
+  obtain ⟨k, a, b, ha, hb, hab⟩ := tiles_interior_disjoint box n hv i j hij s t hs ht
+  obtain ⟨x1, e1, l1, u1⟩ := strict_getElem hxs k a ha
+  obtain ⟨x2, e2, l2, u2⟩ := strict_getElem hxt k b hb
+  rw [e1] at e2; cases e2
+  rcases hab with h | h <;> linarith
+
+/-! ## zero-width inputs give zero-width results -/
+
+/-- every literal exponent is at least 1 (`X ** 0` is the one operation that widens a point: `Interval(0,0) ** 0 = [0, 1]`) -/
+def PosPow : Expr → Prop
+  | .var _ => True
+  | .const _ => True
+  | .add a b => PosPow a ∧ PosPow b
+  | .sub a b => PosPow a ∧ PosPow b
+  | .mul a b => PosPow a ∧ PosPow b
+  | .div a b => PosPow a ∧ PosPow b
+  | .pow a k => 1 ≤ k ∧ PosPow a
+  | .un _ a => PosPow a
+
+theorem mem_degenerate {v : Val} {x : Rat} (hv : v.lo = v.hi) (hx : Mem x v) : x = v.lo :=
+  le_antisymm (hv ▸ hx.2) hx.1
+
+/-- C01 operations preserve zero width -/
+theorem binVal_degenerate (op : BinOp) (l r V : Val) (hl : l.lo = l.hi) (hr : r.lo = r.hi)
+    (h : binVal op l r = .ok V) : V.lo = V.hi := by
+  obtain ⟨⟨x1, y1, a1, b1, e1⟩, ⟨x2, y2, a2, b2, e2⟩⟩ := binVal_attained op l r V (le_of_eq hl) (le_of_eq hr) h
+  rw [mem_degenerate hl a1, mem_degenerate hr b1] at e1
+  rw [mem_degenerate hl a2, mem_degenerate hr b2, e1] at e2
+  exact Except.ok.inj e2
+
+theorem powVal_degenerate (v V : Val) (k : Nat) (hk : 1 ≤ k) (hv : v.lo = v.hi) (h : powVal v k = .ok V) : V.lo = V.hi := by
+  cases v with
+  | num c => simp only [powVal] at h; cases h; rfl
+  | ivl a b =>
+    have hab : a = b := hv
+    subst hab
+    simp only [powVal] at h
+    split at h
+    · obtain ⟨rfl, _⟩ := mk_ok h
+      show (if a > 0 then a ^ k else if a < 0 then a ^ k else 0) = max (a ^ k) (a ^ k)
+      rw [max_self]
+      by_cases h1 : a > 0
+      · rw [if_pos h1]
+      · rw [if_neg h1]
+        by_cases h2 : a < 0
+        · rw [if_pos h2]
+        · rw [if_neg h2]
+          have : a = 0 := le_antisymm (not_lt.mp h1) (not_lt.mp h2)
+          subst this
+          rw [zero_pow (by omega)]
+    · obtain ⟨rfl, _⟩ := mk_ok h
+      show min (a ^ k) (a ^ k) = max (a ^ k) (a ^ k)
+      rw [min_self, max_self]
+
+theorem unVal_degenerate (φ : UFun → Rat → Rat) (f : UFun) (v V : Val) (hv : v.lo = v.hi) (h : unVal φ f v = .ok V) :
+    V.lo = V.hi := by
+  cases v with
+  | num c =>
+    simp only [unVal] at h
+    cases hb : unPt φ f c with
+    | error e => rw [hb] at h; cases h
+    | ok z => rw [hb] at h; cases h; rfl
+  | ivl a b =>
+    have hab : a = b := hv
+    subst hab
+    simp only [unVal] at h
+    split at h
+    · obtain ⟨rfl, _⟩ := mk_ok h; rfl
+    · cases h
+
+/-- ★ direct evaluation over a zero-width box returns a zero-width value -/
+theorem evalIvl_degenerate (φ : UFun → Rat → Rat) (e : Expr) (hp : PosPow e) (box : Box) (hd : ∀ p ∈ box, p.1 = p.2)
+    (V : Val) (h : evalIvl φ box e = .ok V) : V.lo = V.hi := by
+  induction e generalizing V with
+  | var i =>
+    simp only [evalIvl] at h
+    split at h
+    · rename_i p hpi
+      cases h
+      exact hd p (List.mem_of_getElem? hpi)
+    · cases h
+  | const c => simp only [evalIvl] at h; cases h; rfl
+  | add a b iha ihb | sub a b iha ihb | mul a b iha ihb | div a b iha ihb =>
+    simp only [evalIvl, bind, Except.bind] at h
+    split at h
+    · cases h
+    · rename_i u hu
+      split at h
+      · cases h
+      · rename_i v hv
+        exact binVal_degenerate _ u v V (iha hp.1 u hu) (ihb hp.2 v hv) h
+  | pow a k iha =>
+    simp only [evalIvl, bind, Except.bind] at h
+    split at h
+    · cases h
+    · rename_i u hu
+      exact powVal_degenerate u V k hp.1 (iha hp.2 u hu) h
+  | un f a iha =>
+    simp only [evalIvl, bind, Except.bind] at h
+    split at h
+    · cases h
+    · rename_i u hu
+      exact unVal_degenerate φ f u V (iha hp u hu) h
+
+theorem knot_degenerate (a : Rat) (n i : Nat) : knot a a n i = a := by simp [knot]
+
+/-- every tile of a zero-width box is the box itself -/
+theorem tiles_degenerate (box : Box) (n : Nat) (hd : ∀ p ∈ box, p.1 = p.2) (t : Box) (ht : t ∈ tiles box n) : t = box := by
+  have h := (mem_prodL _ _).mp ht
+  clear ht
+  induction box generalizing t with
+  | nil => simp only [List.map_nil, List.forall₂_nil_right_iff] at h; exact h
+  | cons p ps ih =>
+    simp only [List.map_cons, List.forall₂_cons_right_iff] at h
+    obtain ⟨q, t', hq, ht', rfl⟩ := h
+    have hpd := hd p (by simp)
+    have : q = p := by
+      unfold tiles1 at hq
+      split at hq
+      · simpa using hq
+      · obtain ⟨i, _, rfl⟩ := List.mem_map.mp hq
+        rw [← hpd, knot_degenerate, knot_degenerate]
+        exact Prod.ext rfl hpd
+    rw [this, ih (fun r hr => hd r (by simp [hr])) t' ht']
 
 end Pun.B2B
